@@ -24,7 +24,9 @@ RULE = (
     "keys; batch size drawn. Three runs through the real entry point "
     "(tel2puml.__main__.parser + main_handler): A = otel2puml -om; B1 = "
     "otel2pv -se [-mc]; B2 = pv2puml -fp <out>/<workflow> -jn <workflow> "
-    "-om [-mc] per workflow. Oracle: per workflow diagram A is language-"
+    "-om [-mc] per workflow (in half of the cases the saved files are "
+    "instead listed on the command line in a drawn order, or split into "
+    "one file per event, interleaved, with -group-by-job). Oracle: per workflow diagram A is language-"
     "equivalent to diagram B2 and the two model files are equal; the saved "
     "PV files, read back through the inverse key renaming, equal the "
     "in-memory stream of otel_to_pv event for event (ids, fields, links as "
@@ -237,9 +239,39 @@ def check_case(case, ctx=None, fresh=False):
         # ---- route B2 per workflow
         failed_b = []
         for name in wfs:
-            argv = ["-o", outC, "pv2puml", "-fp", os.path.join(outB, name),
-                    "-jn", name, "-om"]
-            if mcp:
+            form = case.get("b2_form", "folder")
+            folder = os.path.join(outB, name)
+            if form == "folder":
+                argv = ["-o", outC, "pv2puml", "-fp", folder, "-jn", name,
+                        "-om"]
+            else:
+                import random
+                rng = random.Random(case.get("sched", 0) ^ 0xB2)
+                paths = [os.path.join(folder, fn)
+                         for fn in sorted(os.listdir(folder))]
+                if form == "event_files":
+                    # one JSON object per file, all jobs interleaved,
+                    # grouped by job id on the command line
+                    edir = os.path.join(tmp, "E", str(len(failed_b)),
+                                        name.replace("/", "_"))
+                    os.makedirs(edir, exist_ok=True)
+                    epaths = []
+                    for fi, fp in enumerate(paths):
+                        with open(fp) as f:
+                            for k, e in enumerate(json.load(f)):
+                                ep = os.path.join(edir, f"e{fi}_{k}.json")
+                                with open(ep, "w") as g:
+                                    json.dump(e, g)
+                                epaths.append(ep)
+                    paths = epaths
+                rng.shuffle(paths)
+                argv = ["-o", outC, "pv2puml", "-jn", name, "-om"]
+                if form == "event_files":
+                    argv.append("-group-by-job")
+                if mcp:
+                    argv += ["-mc", mcp]
+                argv += paths
+            if mcp and form == "folder":
                 argv += ["-mc", mcp]
             learn.SCHED.reseed(case.get("sched", 0) + 1)
             rc, out = cli(argv, fresh)
@@ -342,7 +374,8 @@ def classify(case):
           *(["empty_application_name"] if any(
               w["app"] == "" for w in case["workflows"]) else []),
           "custom_mapping" if case.get("mapping") else "default_mapping",
-          f"files={case.get('files', 1)}"]
+          f"files={case.get('files', 1)}",
+          f"pv2puml_input={case.get('b2_form', 'folder')}"]
     if fork:
         cl.append("pv_job_with_fork")
     if any(len(tr) != len(w["traces"][0]) for w in case["workflows"]
@@ -418,6 +451,10 @@ def strategy():
                 "batch": draw(st.sampled_from([1, 2, 5, 1000])),
                 "order": list(draw(st.permutations(list(range(total))))),
                 "sched": draw(st.integers(0, 2**31 - 1))}
+        form = draw(st.sampled_from(["folder", "folder", "files",
+                                     "event_files"]))
+        if form != "folder":
+            case["b2_form"] = form
         if draw(st.booleans()):
             vals = draw(st.permutations(
                 ["job_identifier", "eventIdNew", "time_of_event", "prev",
